@@ -47,6 +47,16 @@ def op_chains(n, thorough):
         yield '224 cancel redefine', [224000, 236000] + bm + [8023] + mk(224255) + [237255, 224000] + bm + [8023] + mk(224255)
         yield '223 235 redefine', [223000] + bm + mk(223255) + [235000] + POOL[5:5 + 1] + [223000, 101001, 31031] + mk(223255)
         yield '225 twice new bitmap', [225000] + bm + [8024] + mk(225255) + [225000] + bm + [8024] + mk(225255)
+    if n <= 2 or (thorough and n <= 3):
+        # chains of three definitions without cancelling the back references: kept for reuse / direct / kept for reuse
+        # (each bitmap chosen independently, so the third may or may not equal the first), and a recall after a
+        # direct definition that followed a kept one
+        yield '236 direct 236', ([224000, 236000] + bm + [8023] + mk(224255) + [223000] + bm + mk(223255)
+                                 + [225000, 236000] + bm + [8024] + mk(225255))
+        yield '236 direct recall', ([223000, 236000] + bm + mk(223255) + [232000] + bm + mk(232255)
+                                    + [224000, 237000, 8023] + mk(224255))
+        yield 'direct 236 direct', ([232000] + bm + mk(232255) + [222000, 236000] + bm + [101000, 31001, 33007]
+                                    + [223000] + bm + mk(223255))
 
 
 def templates(nmax, thorough):
@@ -55,7 +65,7 @@ def templates(nmax, thorough):
         ts = []
         for bname, base in base_variants(n):
             for oname, chain in op_chains(n, thorough):
-                if bname != 'plain' and oname not in ('224', '222', '225', '224+225 recall') and not thorough:
+                if bname != 'plain' and oname not in ('224', '222', '225', '224+225 recall', '236 direct 236') and not thorough:
                     continue
                 ts.append(base + chain)
         groups[n] = ts
